@@ -1591,6 +1591,18 @@ static void do_deliver(ep_t *src, int count, int chunk)
     emit_begin(&g_out, "deliver", dst);
     sb_printf(&g_out, ",\"from\":\"%s\",\"nrec\":%d,\"bytes\":%d,\"rtype\":%d,\"rid\":%d,\"origin\":%d,\"itype\":%d,\"imsg\":\"%s\",\"wsec\":%d,\"kmatch\":%d,\"seqm\":%d,\"auth\":%d,\"alvl\":%d,\"adesc\":%d,\"rs0\":%d",
         src->name, count, total, total > 0 ? buf[0] : -1, ids0, origin, itype, imsg >= 0 ? hs_name(imsg) : "-", wsec, kmatch, seqm, auth, alvl, adesc, rs0);
+    if (!dst->dtls && total > 5 + 4 + 4 && buf[0] == 22 && wsec == 0 && imsg == 12 && buf[5 + 4] == 3)
+    {
+        /* TLS 1.2 ServerKeyExchange of an ECDHE suite, unprotected: ECParameters (named curve), the point, then the
+           SignatureAndHashAlgorithm the server signed with */
+        int o = 5 + 4 + 3, pl = buf[o];
+        if (o + 1 + pl + 2 <= total) sb_printf(&g_out, ",\"skesig\":%d", (buf[o + 1 + pl] << 8) | buf[o + 1 + pl + 1]);
+    }
+    if (!dst->dtls && total >= 5 + 4 + 2 && buf[0] == 22 && wsec == 0 && imsg == 15)
+    {
+        /* TLS 1.2 CertificateVerify (sent before the client's ChangeCipherSpec): the SignatureAndHashAlgorithm the client signed with */
+        sb_printf(&g_out, ",\"cvsig\":%d", (buf[5 + 4] << 8) | buf[5 + 4 + 1]);
+    }
     if (dst->dtls && total >= 13)
     {
         /* DTLS record header of the (first) record: epoch, sequence number; message_seq of an unprotected handshake message */
